@@ -41,6 +41,10 @@ pub struct Case {
     pub form: Form,
     pub lines: Vec<String>,
     pub fault: Option<FileFault>,
+    /// lines of a file `run/inc/part.ds` that the script includes by a path relative to its own directory
+    /// (the process itself works one directory above)
+    #[serde(default)]
+    pub included: Option<Vec<String>>,
 }
 
 const SCRIPT: &str = "run/script.ds";
@@ -134,7 +138,7 @@ fn gen_case(rng: &mut Rng) -> Case {
     let mut depth = 0;
     // swarm: half of the scripts are free of the failing line kinds so that successes are common
     let calm = rng.chance(1, 2);
-    let mut lines = vec![];
+    let mut lines: Vec<String> = vec![];
     for _ in 0..n {
         let mut l = gen_line(rng, upper, &mut depth);
         if calm && (l.starts_with("exit") || l.starts_with("unknown_") || l.starts_with("trigger") || l.starts_with("assert") || l.contains("unterminated") || l.contains("\\q") || l.starts_with('!') || l.starts_with("x = \"")) {
@@ -164,7 +168,16 @@ fn gen_case(rng: &mut Rng) -> Case {
     } else {
         None
     };
-    Case { entropy: rng.next_u64(), form, lines, fault }
+    let included = if rng.chance(1, 6) {
+        let n = 1 + rng.usize(3);
+        let inc: Vec<String> = (0..n).map(|k| if upper && rng.chance(1, 4) { format!("Shout = set {}", k) } else { format!("echo included {}", k) }).collect();
+        let at = rng.usize(lines.len() + 1);
+        lines.insert(at, "!include_files inc/part.ds".to_string());
+        Some(inc)
+    } else {
+        None
+    };
+    Case { entropy: rng.next_u64(), form, lines, fault, included }
 }
 
 fn library_context() -> Context {
@@ -183,6 +196,11 @@ fn run_case(case: &Case, env: &WorkerEnv) -> Verdict {
     let _ = std::fs::create_dir_all("run");
     let mut text = case.lines.join("\n");
     text.push('\n');
+    if let Some(inc) = &case.included {
+        let _ = std::fs::create_dir_all("run/inc");
+        let _ = std::fs::write("run/inc/part.ds", format!("{}\n", inc.join("\n")));
+        sim::with_core(|c| c.probe("script-includes-a-file-relative-to-its-directory"));
+    }
     match &case.fault {
         None => {
             let _ = std::fs::write(SCRIPT, &text);
@@ -218,7 +236,7 @@ fn run_case(case: &Case, env: &WorkerEnv) -> Verdict {
     let stdout = String::from_utf8_lossy(&output.stdout).to_string();
     sim::with_core(|c| {
         let seq = c.next_seq();
-        c.log.push(Event::Op { seq, op: "duck".to_string(), args: args.iter().map(|a| a.replace('\n', "\\n")).collect(), got: format!("exit={:?} stdout={} bytes", status, stdout.len()), want: String::new() });
+        c.log.push(Event::Op { seq, op: "duck".to_string(), args: args.iter().map(|a| a.replace('\n', "\\n")).collect(), got: format!("exit={:?} stdout={} bytes", status, stdout.replace(env.jail_root.to_string_lossy().as_ref(), "<jail>").len()), want: String::new() });
     });
     if status.is_none() {
         return Verdict::Fail { class: "cli-killed-by-signal".to_string(), detail: format!("duck {:?} was killed by a signal; stderr: {}", args, String::from_utf8_lossy(&output.stderr)) };
